@@ -8,6 +8,7 @@ mod common;
 mod glue;
 mod indicator;
 mod method;
+mod misc;
 mod vtree;
 mod window;
 
@@ -31,6 +32,8 @@ fn main() {
 			"method" => method::run(&mut toks),
 			"indicator" => indicator::run(&mut toks),
 			"glue" => glue::run(&mut toks),
+			"text" => misc::text(&mut toks),
+			"candle" => misc::candle(&mut toks),
 			other => panic!("unknown suite {other}"),
 		};
 		write!(out, "{id}").unwrap();
